@@ -4736,7 +4736,9 @@ class DuckDBGenerator(generator.Generator):
 
         expression.set("this", arg)
 
-        result_sql = f"~{self.sql(expression, 'this')}"
+        this_sql = self.sql(expression, "this")
+        sep = " " if this_sql.startswith("~") else ""
+        result_sql = f"~{sep}{this_sql}"
 
         return _gen_with_cast_to_blob(self, expression, result_sql)
 
